@@ -22,7 +22,8 @@ open Hls.Gen Hls.Gen.TimeConv Hls.Client.TimeConv Hls.Client.Process Hls.Client.
 /-! ## T1 table obligations: the model was written for exactly this source -/
 
 /-- admissible source pins. `clientStreamProcessorFMP4.run` may be the original or carry the repairs of F9 / F8 /
-    both (the regenerated flags must then say so). -/
+    both (the regenerated flags must then say so); `processSegment` may carry the repair of F17 (capacity of the
+    completion channel — scheduling only, invisible to this sequential model). -/
 def expectedPins : List (String × List String) := [
   ("clientTimeConvFMP4.setNTP", ["32fa93852b4eba70"]),
   ("clientTimeConvFMP4.getNTP", ["c32653412827477f"]),
@@ -38,7 +39,7 @@ def expectedPins : List (String × List String) := [
   ("findFirstPartTrackOfLeadingTrack", ["2bb7fd75aa060dbc"]),
   ("findTimeScaleOfLeadingTrack", ["85f8749fc2e183db"]),
   ("clientStreamProcessorFMP4.run", ["b25342f715ab4df2", "536bbd6fdc442c2c", "58af94543df442ed", "123729b57b835024"]),
-  ("clientStreamProcessorFMP4.processSegment", ["2a497942e04fede6"]),
+  ("clientStreamProcessorFMP4.processSegment", ["2a497942e04fede6", "ac1e07081f019abd"]),
   ("clientStreamProcessorFMP4.initializeTrackProcessors", ["75c37fc75a806c4b"]),
   ("mpegtsPickLeadingTrack", ["01552debe7b205e2"]),
   ("clientStreamProcessorMPEGTS.processSegment", ["b62bfcb71a3c99ef"]),
@@ -356,5 +357,47 @@ example : (match (FStream.start true 0 exInit) with
     [(1, 11, 991, 991, some 1700000000020645833),
      (0, 20, 6000, 0, some 1700000000000000000), (0, 22, 6000, 6000, some 1700000000066666666)] := by
   decide
+
+
+/-! ## non-vacuity: an MPEG-TS segment that starts 1000 ticks before the 33-bit wrap -/
+
+def exTS : TStream := { isLeading := true, firstIdx := 0, leadingIdx := 0 }
+/-- an audio unit at the origin that the reader hands over before the first video unit (dropped, `c10_ts_gating`) -/
+def exPre : List TrueSample := [⟨1, 8589933592, 8589933592, 2⟩]
+def exX0 : TrueSample := ⟨0, 8589934192, 8589933592, 1⟩
+/-- true timestamps beyond 2^33 = 8589934592: the container carries them wrapped -/
+def exPost : List TrueSample :=
+  [⟨1, 8589934192, 8589934192, 3⟩, ⟨0, 8589934792, 8589934192, 4⟩, ⟨1, 8589934792, 8589934792, 5⟩]
+
+/-- the hypotheses of `c10_ts_all_delivered` hold for it -/
+example : (∀ x ∈ exPre, (x.track == exTS.leadingIdx) = false) ∧ (exX0.track == exTS.leadingIdx) = true ∧
+    Close exX0.dts (chain (exX0 :: exPost)) := by
+  refine ⟨by decide, by decide, ?_⟩
+  simp [Close, chain, exX0, exPost]
+
+/-- … the wrap really is inside the stream … -/
+example : (exPost.map raw).map (·.pts) = [8589934192, 200, 200] := by decide
+
+/-- … and this is what the model delivers -/
+example : (match tsProcessSegment exTS { conv := none }
+      { dateTime := some 1700000000000000000, samples := (exPre ++ exX0 :: exPost).map raw } with
+    | .ok (_, ds) => ds.map (fun (d : Delivery) => (d.track, d.payload, d.pts, d.dts, d.ntp))
+    | .error _ => []) =
+    [(0, 1, 600, 0, some 1700000000000000000), (1, 3, 600, 600, some 1700000000006666666),
+     (0, 4, 1200, 600, some 1700000000006666666), (1, 5, 1200, 1200, some 1700000000013333333)] := by
+  decide
+
+/-- `Rel` (hypothesis of `c10_ts_all_delivered_later`) is inhabited: the state right after the origin was fixed -/
+example : Rel { conv := some (TSConv.init (8589933592 % 8589934592)), procsReady := true, leadingTrackFound := true }
+    { t := 8589933592, found := true } 8589933592 :=
+  rel_first { conv := none } 8589933592
+
+/-- `ConvOK` (hypothesis of `c10_all_delivered_later`) and the anchored converter of `c10_ntp`, concretely -/
+example : ConvOK { leadingTimeScale := 90000, leadingBaseTime := 8589934000, ntpAvailable := true,
+                   ntpValue := 1700000000000000000, ntpTimestamp := 0, ntpClockRate := 90000 } :=
+  ⟨by decide, fun _ => by decide⟩
+
+/-- the ≤ 1 ns slack of `c10_ntp` is real: 5 ticks + 5 ticks at 90 kHz -/
+example : timestampToDuration 5 90000 + timestampToDuration 5 90000 + 1 = timestampToDuration 10 90000 := by decide
 
 end Hls.Props.C10
